@@ -755,11 +755,26 @@ struct KexPlan {
 }
 
 fn kex_session(p: &mut Prng, w: &mut World, plan: &KexPlan, fixed: Option<(&str, &str, &str)>) {
-    let (ida, idb) = if fixed.is_some() { (b"Alice".to_vec(), b"Bob".to_vec()) } else { (sm9_id(p), sm9_id(p)) };
+    let (ida, idb) = if fixed.is_some() {
+        (b"Alice".to_vec(), b"Bob".to_vec())
+    } else {
+        let a = sm9_id(p);
+        // relation between inputs: the same identity on both sides, one a prefix of the other
+        let b = match p.below(10) {
+            0 => a.clone(),
+            1 => {
+                let mut b = a.clone();
+                b.extend_from_slice(&p.bytes(1));
+                b
+            }
+            _ => sm9_id(p),
+        };
+        (a, b)
+    };
     let klen = if fixed.is_some() {
         16
     } else if p.chance(1, 3) {
-        *p.pick(&[1usize, 16, 31, 32, 33, 64, 96, 128])
+        *p.pick(&[1usize, 16, 31, 32, 33, 64, 96, 128, 255, 256, 257, 8161, 65536, 70000])
     } else {
         p.range(1, 128)
     };
